@@ -45,14 +45,14 @@ fn exec_trace(sess: &Session, clock: Option<Clock>) -> Result<(Trace, Vec<(u8, u
                 tr.push((b, o.infos));
             }
         }
-        stats.push((ps.tt.generation, (ps.tt.occupied as usize), (ps.tt.occupancy() as usize)));
+        stats.push((ps.tt.generation, crate::tt_occ!(ps.tt), (ps.tt.occupancy() as usize)));
     }
     Ok((tr, stats))
 }
 
 fn fresh_like(ps_hash: usize) -> (u8, usize, usize, Vec<i32>) {
     let ps = PersistentState::new(ps_hash);
-    (ps.tt.generation, (ps.tt.occupied as usize), (ps.tt.occupancy() as usize), history_scores(&ps))
+    (ps.tt.generation, crate::tt_occ!(ps.tt), (ps.tt.occupancy() as usize), history_scores(&ps))
 }
 
 fn history_scores(ps: &PersistentState) -> Vec<i32> {
@@ -209,7 +209,7 @@ pub fn c12(run: &'static Run) -> (u64, u64) {
                 }
             }
             ps.reset();
-            (ps.tt.generation, (ps.tt.occupied as usize), (ps.tt.occupancy() as usize), history_scores(&ps))
+            (ps.tt.generation, crate::tt_occ!(ps.tt), (ps.tt.occupancy() as usize), history_scores(&ps))
         });
         let hsess = Session { hash_mb: 1, start_gen: 0, steps: { let mut v = h.clone(); v.push(Step::NewGame); v } };
         match r {
